@@ -77,8 +77,40 @@ def carrier_values(ds, carrier):
     raise ValueError(carrier)
 
 
-def judge(acc, ds, signed_arg, pattern, carrier, part):
-    """pattern: dict of given sizes"""
+CFG_ALTS = {'n_word_max': [8, 16, 128], 'max_error': [1e-3, 0.5, 2.0 ** -70], 'rounding': ['around', 'floor'], 'overflow': ['wrap'], 'shifting': ['trunc'],
+            'op_input_size': ['best'], 'op_sizing': ['same', 'smallest'], 'const_op_sizing': ['largest'], 'op_method': ['repr'], 'dtype_notation': ['Q'],
+            'array_output_type': ['array'], 'array_op_method': ['repr']}
+
+
+def aged_config():
+    """a Config on which every setting was changed to other valid values and put back: it must be indistinguishable from a fresh one"""
+    from ..common import Config
+    cfg = Config()
+    for attr, alts in CFG_ALTS.items():
+        orig = getattr(cfg, attr)
+        for a in alts:
+            setattr(cfg, attr, a)
+        setattr(cfg, attr, orig)
+    return cfg
+
+
+def judge_config_roundtrip(acc, part):
+    from ..common import Config
+    fresh, aged = Config(), aged_config()
+    acc.evaluations += 1
+    acc.transitions += sum(len(v) + 1 for v in CFG_ALTS.values())
+    acc.nontrivial += 1
+    a, b = {k: repr(v) for k, v in vars(fresh).items()}, {k: repr(v) for k, v in vars(aged).items()}
+    if a != b:
+        diff = {k: (a.get(k), b.get(k)) for k in set(a) | set(b) if a.get(k) != b.get(k)}
+        acc.violation('config_state', {'part': part, 'config_roundtrip': True}, 'a Config whose settings were changed and put back differs from a fresh one: %s' % diff,
+                      {'part': part, 'aspect': 'config_roundtrip'})
+    else:
+        acc.outcome('config_roundtrip_ok')
+
+
+def judge(acc, ds, signed_arg, pattern, carrier, part, cfg=False):
+    """pattern: dict of given sizes; cfg: the object is built with config= a Config that has a history (aged_config)"""
     ds = [norm(d) for d in ds]
     if any(not is_exact_double(d) for d in ds):
         acc.skipped += 1
@@ -89,7 +121,7 @@ def judge(acc, ds, signed_arg, pattern, carrier, part):
     signed = True if signed_arg is None else signed_arg
     if not signed and any(d[0] < 0 for d in ds):
         return
-    case = {'part': part, 'vals': [list(d) for d in ds], 'signed': signed_arg, 'pattern': pattern, 'carrier': carrier}
+    case = {'part': part, 'vals': [list(d) for d in ds], 'signed': signed_arg, 'pattern': pattern, 'carrier': carrier, 'cfg': cfg}
     exp = infer(ds, signed, **pattern)
     if exp.n_word > 64 or exp.n_word < 0:
         acc.skipped += 1
@@ -106,7 +138,11 @@ def judge(acc, ds, signed_arg, pattern, carrier, part):
     if signed_arg is not None:
         kw['signed'] = signed_arg
     try:
-        x = Fxp(v, **kw)
+        if cfg:
+            acc.dim('config', 'aged')
+            x = Fxp(v, config=aged_config(), **kw)
+        else:
+            x = Fxp(v, **kw)
         gf = fmt_of(x)
         gc = codes(x)
         fl = flags(x)
@@ -277,6 +313,7 @@ def run_shard(sh):
                 for pat in patterns_for([d], signed):
                     for carrier in ('int', 'float', 'arr1'):
                         judge(acc, [d], sg, pat, carrier, part)
+                    judge(acc, [d], sg, pat, 'float', part, True)
     elif part == 'c':
         a = ARR_LETTERS[sh['i']]
         for b in ARR_LETTERS:
@@ -292,6 +329,7 @@ def run_shard(sh):
                         for carrier in ('list', 'ndarray'):
                             judge(acc, ds, sg, pat, carrier, 'c')
     elif part == 'r':
+        judge_config_roundtrip(acc, 'r')
         for a in ARR_LETTERS:
             for b in ARR_LETTERS:
                 for c in ARR_LETTERS[::3]:
@@ -359,12 +397,14 @@ def replay(case):
     if case.get('reuse'):
         judge_buffer_reuse(acc, [tuple(d) for d in case['v1']], [tuple(d) for d in case['v2']], case['signed'], case['part'])
         return acc.violations
-    if 'float' in case:
+    if case.get('config_roundtrip'):
+        judge_config_roundtrip(acc, case['part'])
+    elif 'float' in case:
         judge_capped(acc, float.fromhex(case['float']), case['signed'], case['part'])
     elif 'floats' in case:
         judge_capped_array(acc, [float.fromhex(h) for h in case['floats']], case['part'])
     else:
-        judge(acc, [tuple(d) for d in case['vals']], case['signed'], case['pattern'], case['carrier'], case['part'])
+        judge(acc, [tuple(d) for d in case['vals']], case['signed'], case['pattern'], case['carrier'], case['part'], case.get('cfg', False))
     return acc.violations
 
 
